@@ -131,6 +131,9 @@ func MarshalValue(ctx Ctx, value reflect.Value, cont Proc) Proc {
 				return cont, nil
 
 			case SBMarshaler:
+				if marshalerBehindIndirection(value, sbMarshalerType) {
+					break
+				}
 				if value.Kind() == reflect.Ptr && value.IsNil() {
 					_, found := value.Type().Elem().MethodByName("SBMarshaler")
 					if !found {
@@ -144,6 +147,9 @@ func MarshalValue(ctx Ctx, value reflect.Value, cont Proc) Proc {
 				return v.MarshalSB(ctx, cont), nil
 
 			case encoding.BinaryMarshaler:
+				if marshalerBehindIndirection(value, binaryMarshalerType) {
+					break
+				}
 				if value.Kind() == reflect.Ptr && value.IsNil() {
 					// calling a value-receiver method through a nil pointer panics
 					*token = Nil
@@ -156,6 +162,9 @@ func MarshalValue(ctx Ctx, value reflect.Value, cont Proc) Proc {
 				return ctx.Marshal(ctx, reflect.ValueOf(string(bs)), cont), nil
 
 			case encoding.TextMarshaler:
+				if marshalerBehindIndirection(value, textMarshalerType) {
+					break
+				}
 				if value.Kind() == reflect.Ptr && value.IsNil() {
 					*token = Nil
 					return cont, nil
@@ -351,6 +360,33 @@ func MarshalValue(ctx Ctx, value reflect.Value, cont Proc) Proc {
 	}
 
 	return marshal
+}
+
+var (
+	sbMarshalerType     = reflect.TypeOf((*SBMarshaler)(nil)).Elem()
+	binaryMarshalerType = reflect.TypeOf((*encoding.BinaryMarshaler)(nil)).Elem()
+	textMarshalerType   = reflect.TypeOf((*encoding.TextMarshaler)(nil)).Elem()
+)
+
+// marshalerBehindIndirection reports whether value is a pointer or interface
+// that leads to a value of a registered type carrying the marshalling method
+// itself. Such a value is dereferenced first, so that the element is marshalled
+// under its own type and gets its type name at every level of indirection.
+func marshalerBehindIndirection(value reflect.Value, marshalerType reflect.Type) bool {
+	if kind := value.Kind(); kind != reflect.Ptr && kind != reflect.Interface {
+		return false
+	}
+	for value.Kind() == reflect.Ptr || value.Kind() == reflect.Interface {
+		if value.IsNil() {
+			return false
+		}
+		value = value.Elem()
+	}
+	if !value.Type().Implements(marshalerType) {
+		return false
+	}
+	_, ok := registeredTypeToName.Load(value.Type())
+	return ok
 }
 
 // enterReference counts one more level of indirection through a slice or map
